@@ -155,6 +155,40 @@ def KMState.afterDerive (st : KMState) : KMState :=
   { st with lndBasepointIndex := (st.lndBasepointIndex + 1) % 2 ^ 32,
             randBytesChildIndex := st.randBytesChildIndex + 1 }
 
+/-! ## Channel ids (`ChannelId` of channel.rs) and what HMAC does to them
+
+`keys_id` uses the channel id as the HKDF *salt*, i.e. as the HMAC key of the extract step.  HMAC first
+normalises its key to one 64-byte block (`hmacKeyBlock`): two ids with the same block necessarily get the same
+keys (known finding), two ids with different blocks collide only if HMAC-SHA256 itself collides.  The ids the node
+API builds (`new_from_peer_id_and_oid`: 41 bytes, `new_from_oid` / `get_channel_id`: 32 bytes) are modelled here so
+that `Props/C18.lean` can prove that *they* never share a block. -/
+
+/-- `u64::to_le_bytes` -/
+def le64 (n : Nat) : Bytes := (List.range 8).map (fun i => UInt8.ofNat ((n >>> (8 * i)) % 256))
+
+/-- `u64::from_le_bytes` (of whatever bytes it is given; `ChannelId::oid` hands it exactly 8) -/
+def le64Val (b : Bytes) : Nat := b.foldr (fun x acc => x.toNat + 256 * acc) 0
+
+/-- `ChannelId::new_from_peer_id_and_oid(peer_id: &[u8; 33], oid)` (CLN style): `peer_id ‖ oid.to_le_bytes()` -/
+def chanIdOfPeerOid (peer : Bytes) (oid : Nat) : Bytes := peer ++ le64 oid
+
+/-- `ChannelId::new_from_oid(oid)` (LDK style): 24 zero bytes ‖ `oid.to_le_bytes()` -/
+def chanIdOfOid (oid : Nat) : Bytes := List.replicate 24 0 ++ le64 oid
+
+/-- `ChannelId::oid()`: the last 8 bytes read little-endian; `none` where `&self.0[len - 8..]` panics
+(an id shorter than 8 bytes: `usize` underflow) -/
+def chanIdOid (id : Bytes) : Option Nat :=
+  if id.length < 8 then none else some (le64Val (id.drop (id.length - 8)))
+
+/-- `ChannelId::ldk_channel_keys_id()`: the id itself if it has exactly 32 bytes, else a panic
+(`copy_from_slice` length mismatch) -/
+def chanIdLdkKeysId (id : Bytes) : Option Bytes := if id.length = 32 then some id else none
+
+/-- the 64-byte block HMAC-SHA256 turns its key into (`Sha256.hmac` starts with exactly this) -/
+def hmacKeyBlock (key : Bytes) : Bytes :=
+  let k0 := if key.length > 64 then Sha256.sha256 key else key
+  k0 ++ List.replicate (64 - k0.length) 0
+
 /-! ## Concrete primitives -/
 
 def slice32 (b : Bytes) (k : Nat) : Bytes := (b.drop (32 * k)).take 32
